@@ -273,6 +273,8 @@ pub const total: Int = helpers.sum(consts.primes)
 
 pub const areas: List<Int> = helpers.map(consts.shapes, helpers.area)
 
+pub const parity: Bool = helpers.is_even(10)
+
 pub fn within_limit(n: Int) -> Bool {
   n <= consts.limit
 }
@@ -290,7 +292,7 @@ pub fn scaled(k: Int) -> List<Int> {
 fn unit_body(r: &mut Prng, c: &Consts, broken: bool) -> String {
     let total: i64 = c.primes.iter().sum();
     let off = if broken { 1 } else { 0 };
-    match r.below(16) {
+    match r.below(17) {
         0 => format!("helpers.sum(consts.primes) + {off} == derived.total"),
         1 => format!("helpers.length(consts.table) == {}", c.table.len() as i64 + off),
         2 => {
@@ -340,6 +342,7 @@ fn unit_body(r: &mut Prng, c: &Consts, broken: bool) -> String {
         ),
         13 => format!("consts.doubled == {} && derived.total == {}", 2 * c.limit, total + off),
         14 => format!("helpers.color_code(Blue) + helpers.norm1(Pt {{ x: -2, y: 3 }}) == {}", 8 + off),
+        15 => format!("derived.parity == helpers.is_even({}) && helpers.is_odd(3)", 4 + off),
         _ => format!("consts.corner.1st == consts.limit && derived.owner_is(consts.corner.2nd) == {}", if broken { "False" } else { "True" }),
     }
 }
